@@ -63,6 +63,16 @@ class Pair_Potentials_From_Tuples_Builder(object):
           species_b = potrow.species.species_b,
           section_name = self.log_section_name)
         raise ConfigurationException(msg)
+      except (ArithmeticError, ValueError) as e:
+        # Building a potential evaluates its pieces (a spline needs value and derivatives of its end potentials at the
+        # detach and attach points): a definition whose pieces cannot be evaluated there is ill-formed.
+        msg = "Problem defining {species_a}-{species_b} in [{section_name}] section. The definition could not be evaluated whilst it was built: {exc_type}: {msg}".format(
+          msg = e,
+          exc_type = type(e).__name__,
+          species_a = potrow.species.species_a,
+          species_b = potrow.species.species_b,
+          section_name = self.log_section_name)
+        raise ConfigurationException(msg)
     return pots
 
   @property
